@@ -107,9 +107,16 @@ def cases(ctx):
         if bk in ("arb", "even"):
             sh = [rng.choice([1, 3, 3, 5]) if bk == "arb" else rng.choice([2, 4]) for _ in range(nd)]
             bc = {"shape": sh, "vals": [1 if rng.random() < 0.5 else 0 for _ in range(gen.size(sh))]}
+        lmap = None
+        if rng.random() < 0.2 and i % 25 != 0:
+            # marker labels far outside the 32-bit range (tile ids shifted left, hashes, negative ids): the labels of the result
+            # are these very numbers; the model sees them through an injective renaming
+            pool = [2 ** 31, 2 ** 32, 2 ** 32 + 5, 2 ** 31 + 7, 2 ** 40 + 1, (3 << 32) + 2, 2 ** 62, -3, -(2 ** 33), -(2 ** 31) - 1]
+            rng.shuffle(pool)
+            lmap = pool[:7]
         yield {"dtype": dtype, "shape": shape, "vals": vals, "markers": m, "bc": bc, "layout": rng.choice(LAYOUTS),
-               "mlayout": rng.choice(LAYOUTS), "lines": rng.random() < 0.6,
-               "mdtype": rng.choice(["int64", "int32", "uint8", "uint16"]), "isolated": i % 25 == 0,
+               "mlayout": rng.choice(LAYOUTS), "lines": rng.random() < 0.6, "lmap": lmap,
+               "mdtype": "int64" if lmap else rng.choice(["int64", "int32", "uint8", "uint16"]), "isolated": i % 25 == 0,
                # 64-bit surfaces far above 2**53: neighbouring values are distinct integers but equal as doubles
                "base": (rng.choice([2 ** 56, 2 ** 62, -(2 ** 62)]) if dtype == "int64" else 2 ** 63 if dtype == "uint64" else 0)
                        if rng.random() < 0.6 else 0}
@@ -122,7 +129,10 @@ def mk(case):
     if case.get("base"):
         a0 = a0 + np.array(case["base"], dtype=dt)      # order-preserving, exact in 64-bit integers
         assert a0.dtype == np.dtype(dt)
-    m0 = np.array(case["markers"], dtype=np.dtype(case["mdtype"])).reshape(case["shape"])
+    mk_ = case["markers"]
+    if case.get("lmap"):
+        mk_ = [case["lmap"][v - 1] if v else 0 for v in mk_]
+    m0 = np.array(mk_, dtype=np.dtype(case["mdtype"])).reshape(case["shape"])
     nd = a0.ndim
     bcs = case["bc"]
     if bcs in ("cross", "none"):
@@ -174,6 +184,11 @@ def run_case(ctx, case):
             return Result(False, True, {"why": "dtype/shape", "got": [str(W.dtype), list(W.shape)]})
         gl = [int(v) for v in W.reshape(-1)]
     mi = m0.astype(np.int64)
+    if case.get("lmap"):
+        back = {big: k + 1 for k, big in enumerate(case["lmap"])}
+        back[0] = 0
+        gl = [back.get(v, v) for v in gl]          # a label that is none of the markers' stays as it is (and fails below)
+        mi = np.array(case["markers"], dtype=np.int64).reshape(case["shape"])
     ref_res, ref_lines = flood_ref(list(a0.shape), [int(v) for v in fi.reshape(-1)], [int(v) for v in mi.reshape(-1)],
                                    offsets_of(bc0), want_lines)
     if gl != ref_res:
